@@ -292,6 +292,24 @@ def run(ctx: Ctx):
                         ("TZOFFSETTO", timedelta(hours=14)), ("TZOFFSETTO", -timedelta(hours=12, minutes=30, seconds=15)),
                         ("SUMMARY", ""), ("SUMMARY", " leading and trailing "), ("SUMMARY", "tab\tand \u2028 separators"),
                         ("CATEGORIES", ["a", "", "c"]), ("CATEGORIES", ["only"]), ("RESOURCES", ["x y", "z;w"])]
+            # values of SUBCLASSES of the documented kinds (a str / int / date / datetime / timedelta subclass is that kind)
+            class _S(str):
+                pass
+
+            class _I(int):
+                pass
+
+            class _D(date):
+                pass
+
+            class _DT(datetime):
+                pass
+
+            class _TD(timedelta):
+                pass
+            variants += [("SUMMARY", _S("sub class, text")), ("PRIORITY", _I(3)), ("DTSTART", _D(2024, 1, 2)), ("DTSTART", _DT(2024, 1, 2, 3, 4, 5)),
+                         ("DTSTART", _DT(2024, 1, 2, 3, 4, 5, tzinfo=ZoneInfo("Europe/Berlin"))), ("DURATION", _TD(hours=1, seconds=5)),
+                         ("TRIGGER", _TD(minutes=-5)), ("LOCATION", _S(""))]
             for n, v in variants:
                 comp = comp_for(n)
                 ctx.evaluations += 1
@@ -307,8 +325,10 @@ def run(ctx: Ctx):
                         ok = isinstance(got, int) and int(got) == int(v)
                     elif isinstance(v, timedelta):
                         ok = (got.td if hasattr(got, "td") else got.dt) == v
-                    elif isinstance(v, (date, datetime)):
-                        ok = same_dt(v, got.dt)
+                    elif isinstance(v, datetime):
+                        ok = same_dt(datetime(v.year, v.month, v.day, v.hour, v.minute, v.second, tzinfo=v.tzinfo), got.dt)
+                    elif isinstance(v, date):
+                        ok = same_dt(date(v.year, v.month, v.day), got.dt)
                     elif isinstance(v, list):
                         ok = ([str(c) for c in got.cats] if hasattr(got, "cats") else [str.__str__(x) for x in got]) == v
                     else:
